@@ -81,6 +81,33 @@ def p2(d):
     return d
 
 
+@functools.lru_cache(maxsize=None)
+def cached(x):
+    return x
+
+
+class _ClassDeco:
+    def __init__(self, fn):
+        functools.update_wrapper(self, fn)
+        self.fn = fn
+
+    def __call__(self, *a, **k):
+        return self.fn(*a, **k)
+
+
+@_ClassDeco
+def class_wrapped(x):
+    return x
+
+
+class NoneType:
+    """a user class that merely shares its name with a hidden builtin"""
+
+
+class mappingproxy:
+    pass
+
+
 not_a_function = 3
 
 
@@ -123,9 +150,9 @@ class Fixture:
         self.k = k
         self.pkg = os.path.join(self.dir, name)
         os.makedirs(os.path.join(self.pkg, "sub"))
-        self.write("__init__.py", "")
+        self.write("__init__.py", "class Top:\n    pass\n")
         self.write("mod.py", MOD)
-        self.write("sub/__init__.py", "")
+        self.write("sub/__init__.py", "class Gadget:\n    pass\n")
         self.write("sub/inner.py", INNER)
         self.db = os.path.join(self.dir, "traces.sqlite3")
         with open(os.path.join(self.dir, name + "_cfg.py"), "w") as f:
